@@ -65,6 +65,26 @@ def _resolve_task(r, target):
     return None, snap, labels
 
 
+def _resolve_action(r, target):
+    """target: {'state': <state or None>, 'index': i, 'sync': bool|None}."""
+    snap = observe.snapshot()
+    labels = observe.Labels(snap, r.rec.insert_order())
+    target = target or {}
+    cands = []
+    for aid, lab in labels.action.items():
+        a = snap['action'][aid]
+        if target.get('state') and a['state'] != target['state']:
+            continue
+        if target.get('sync') is not None and \
+                bool(a['is_sync']) != bool(target['sync']):
+            continue
+        cands.append((lab, aid))
+    cands.sort()
+    if cands:
+        return cands[target.get('index', 0) % len(cands)][1], snap, labels
+    return None, snap, labels
+
+
 def issue(r, op):
     m = world.M
     sim = r.sim
@@ -153,6 +173,46 @@ def issue(r, op):
                                              skip=(kind == 'skip'),
                                              env=op.get('env'))
                     entry['result'] = ('ok', None)
+                elif kind == 'action_update':
+                    # external system / operator: PUT /action_executions
+                    aid, snap, labels = _resolve_action(r, op.get('target'))
+                    entry['target_id'] = aid
+                    entry['target_label'] = labels.action.get(aid)
+                    if aid is None:
+                        entry['result'] = ('skipped', 'no target')
+                        return
+                    entry['state_before'] = snap['action'][aid]['state']
+                    state = op.get('state', 'SUCCESS')
+                    if op.get('via', 'rest') == 'rest':
+                        from mistralsim import rest
+                        body = {'state': state}
+                        if state in ('SUCCESS', 'ERROR'):
+                            body['output'] = json.dumps(
+                                op.get('output', {'ext': 'upd'}))
+                        code, data = rest.call(
+                            'PUT', '/v2/action_executions/%s' % aid, body,
+                            world.user_ctx(project,
+                                           admin=op.get('admin', False)))
+                        entry['http'] = code
+                        if code == 200:
+                            entry['result'] = ('ok', data.get('state'))
+                        else:
+                            entry['result'] = ('http', code, str(data)[:300])
+                        return
+                    _ctx()
+                    if state in ('PAUSED', 'RUNNING'):
+                        res = eng.on_action_update(aid, state)
+                    else:
+                        out = op.get('output', {'ext': 'upd'})
+                        if state == 'SUCCESS':
+                            result = m.ml_actions.Result(data=out)
+                        elif state == 'ERROR':
+                            result = m.ml_actions.Result(error=out)
+                        else:
+                            result = m.ml_actions.Result(cancel=True)
+                        res = eng.on_action_complete(aid, result)
+                    entry['result'] = ('ok', (res or {}).get('state')
+                                       if isinstance(res, dict) else None)
                 else:
                     raise ValueError('unknown op %s' % kind)
             except Exception as e:
